@@ -47,6 +47,7 @@ CONSTANTS
   LoadUnderLock,    \* TRUE: the first-use read of the store happens inside the entry's critical section
   AbsentPurge,      \* BOOLEAN: purges naming a cache that does not exist are explored too
   Reapplies,        \* BOOLEAN: the unchanged cache configuration is applied again (ResetDispatchers) at arbitrary moments
+  ClientGones,      \* BOOLEAN: the client of a request that is queued behind a fetch may go away (its context is cancelled)
   Ghost           \* TRUE: maintain the observation state (FALSE: design invariants and liveness only, far fewer states)
 
 VARIABLES
@@ -187,6 +188,18 @@ Start(r, k, d, m) ==
   /\ UNCHANGED <<now, ticks, lru, ent, est, nextEnt, elock, slock, store, rttl, rsend,
                  ppc, pkey, ptodo, pcur, pall, nver, purges, kills, drops>>
 
+(* the client of a request that is registered / parked behind a fetch goes away: the request's context is cancelled.
+   The code at HEAD does not look at the context while it waits (named deviation: the queue is left only through the
+   completion's hand-off), so nothing moves; the request will find its round trip refused if it is sent to the upstream
+   later on (UpStart).  At most once per queued request. *)
+ClientGone(r) ==
+  /\ ClientGones
+  /\ pc[r] \in {"get.recv", "recv"} /\ rout[r] = "none"
+  /\ rout' = [rout EXCEPT ![r] = "gone"]
+  /\ UNCHANGED <<now, ticks, lru, ent, est, nextEnt, elock, slock, store,
+                 pc, rkey, rdisp, rmeth, rent, rst, rresp, rttl, rsend, rver,
+                 ppc, pkey, ptodo, pcur, pall, starts, nver, purges, kills, drops, obs>>
+
 (* dispatcher.go GetHTTPCache: the whole body runs under the shard lock *)
 Lookup(r) ==
   LET d == rdisp[r]  k == rkey[r]  z == ShardOf[k]  e == ent[d][k] IN
@@ -322,8 +335,13 @@ AgeStep(r) ==
 (* cache.go:113  c.Next(): the request goes to the upstream *)
 UpStart(r) ==
   /\ pc[r] = "next"
-  /\ pc' = [pc EXCEPT ![r] = "upstream"]
-  /\ obs' = G(O!OUpStart(obs, r))
+  /\ IF rout[r] = "gone"
+     THEN (* the client went away while the request was queued: the transport refuses the round trip, the origin is not
+             contacted; a request that had become the fetcher ends its fetch without a response *)
+          /\ pc' = [pc EXCEPT ![r] = IF rst[r] = "fetching" THEN "hfp.lock" ELSE "end"]
+          /\ obs' = G(IF rst[r] = "fetching" THEN O!OUpEnd(obs, r, FALSE, 0) ELSE obs)
+     ELSE /\ pc' = [pc EXCEPT ![r] = "upstream"]
+          /\ obs' = G(O!OUpStart(obs, r))
   /\ UNCHANGED <<now, ticks, lru, ent, est, nextEnt, elock, slock, store,
                  rkey, rdisp, rmeth, rent, rst, rresp, rout, rttl, rsend, rver,
                  ppc, pkey, ptodo, pcur, pall, starts, nver, purges, kills, drops>>
@@ -420,7 +438,7 @@ Save(r, ok) ==
 (* the middleware returns *)
 End(r) ==
   LET lab == rst[r]
-      err == IF rout[r] \in {"error", "timeout", "gone", "panic", "nilresp"} THEN "upstream"
+      err == IF rout[r] \in {"error", "timeout", "gone", "panic", "nilresp"} /\ lab # "hit" THEN "upstream"
              ELSE IF lab = "hit" /\ rresp[r] = 0 THEN "own" ELSE "none"
       v == IF lab = "hit" THEN rresp[r] ELSE rver[r] IN
   /\ pc[r] = "end"
@@ -526,6 +544,7 @@ LoadChoices == LoadResults \cup {"none", "notfound"}
 
 ReqStep(r) ==
   \/ \E k \in Keys, d \in Disp, m \in Methods : Start(r, k, d, m)
+  \/ ClientGone(r)
   \/ Lookup(r)
   \/ GetBegin(r)
   \/ \E res \in LoadChoices : GetStep(r, res)
